@@ -636,6 +636,47 @@ func gen(t *tl.T) {
 	}
 	t.Fact("ThemableElement.Render: %d themable properties", len(eprops))
 
+	// ---------------------------------------------------------------- d2compiler.compileThemeOverrides (source-level overrides)
+	cto := t.Func("d2compiler/compile.go", "", "compileThemeOverrides")
+	var cfgCases []pair
+	upper := false
+	ast.Inspect(cto.Body, func(n ast.Node) bool {
+		sw, ok := n.(*ast.SwitchStmt)
+		if !ok {
+			return true
+		}
+		upper = t.Src(sw.Tag) == "strings.ToUpper(f.Name.ScalarString())"
+		for _, c := range sw.Body.List {
+			cc := c.(*ast.CaseClause)
+			if cc.List == nil {
+				continue
+			}
+			if len(cc.Body) != 1 {
+				t.Fail("compileThemeOverrides: case %s has %d statements", t.Src(cc.List[0]), len(cc.Body))
+			}
+			as, ok := cc.Body[0].(*ast.AssignStmt)
+			if !ok || len(as.Lhs) != 1 || t.Src(as.Rhs[0]) != "go2.Pointer(f.Primary().Value.ScalarString())" {
+				t.Fail("compileThemeOverrides: unexpected statement under case %s: %s", t.Src(cc.List[0]), t.Src(cc.Body[0]))
+			}
+			field := strings.TrimPrefix(t.Src(as.Lhs[0]), "themeOverrides.")
+			if !isCode(field) {
+				t.Fail("compileThemeOverrides: assigns %s", t.Src(as.Lhs[0]))
+			}
+			for _, l := range cc.List {
+				s, ok := t.StringLit(l)
+				if !ok {
+					t.Fail("compileThemeOverrides: non-literal case label")
+				}
+				cfgCases = append(cfgCases, pair{s, field})
+			}
+		}
+		return false
+	})
+	if len(cfgCases) == 0 || !upper {
+		t.Fail("compileThemeOverrides: switch over strings.ToUpper(f.Name.ScalarString()) not found")
+	}
+	t.Fact("compileThemeOverrides: %d cases", len(cfgCases))
+
 	// ---------------------------------------------------------------- Lean
 	t.P("import D2V.Model.ThemeCode\n")
 	t.P("namespace D2V.Gen.Themes\nopen D2V.Themes\n\n")
@@ -719,5 +760,7 @@ func gen(t *tl.T) {
 	}
 	t.P("def findSearch : List ThemeRec := %s\n\n", strings.Join(fo, " ++ "))
 	t.P("/-- ThemeCSS: theme used when no ID is given -/\ndef defaultTheme : ThemeRec := neutralDefaultTheme\n\n")
+	t.P("/-- d2compiler.compileThemeOverrides: (upper-cased key of `theme-overrides`, ThemeOverrides field set) -/\n")
+	t.P("def configOverrideCases : List (String × Code) := %s\n\n", pairsLean(cfgCases, tl.LeanString))
 	t.P("end D2V.Gen.Themes\n")
 }
